@@ -60,19 +60,47 @@ class PrivateGone(Exception):
     """a private attribute / hook field / keyword that the projection relies on does not exist any more"""
 
 
+_GEO_TABLE = {}
+
+
+def _geo_lookup(uid):
+    return _GEO_TABLE[uid]
+
+
 class Geometry:
+    """D, N, NDIV, LMAX, group as in RunGrid.tla.  `fresh()` gives the instance a World works with: result slots are
+    handed out on first use (compact result vectors); that instance is pickled by reference, so the copies of the
+    calculator made by the pass-by-value ray double share the slot table (the double runs in this process)."""
+
     def __init__(self, D, N, NDIV, LMAX, group):
         self.D, self.N, self.NDIV, self.LMAX, self.group = D, N, NDIV, LMAX, group
         self.U = 2 * N * NDIV ** LMAX
         self.W0 = NDIV ** (D * LMAX)
         self.WTOT = N ** D * self.W0
-        self.nslots = (LMAX + 2) * self.U ** D
-        self.registry = None   # big worlds: slots are handed out on first use instead of by coordinate
+        self.capacity = 512
+        self.nslots = None
+        self.registry = None
+        self.uid = None
 
     def use_registry(self, capacity):
-        self.registry = {}
-        self.nslots = capacity
+        self.capacity = capacity
         return self
+
+    def fresh(self):
+        g = Geometry(self.D, self.N, self.NDIV, self.LMAX, self.group)
+        g.capacity = g.nslots = self.capacity
+        g.registry = {}
+        g.uid = len(_GEO_TABLE) + 1
+        _GEO_TABLE[g.uid] = g
+        return g
+
+    def release(self):
+        _GEO_TABLE.pop(self.uid, None)
+
+    def __reduce__(self):
+        if self.uid is not None and self.uid in _GEO_TABLE:
+            return (_geo_lookup, (self.uid,))
+        return (Geometry, (self.D, self.N, self.NDIV, self.LMAX, self.group))
 
     def key(self):
         return (self.D, self.N, self.NDIV, self.LMAX, self.group)
@@ -91,13 +119,10 @@ class Geometry:
     def slot(self, cell, lev):
         if lev > self.LMAX + 1 or lev < 0:
             raise NonIntegral(f"refinement level {lev} outside 0..LMAX+1={self.LMAX + 1}")
-        if self.registry is not None:
-            s = self.registry.setdefault((tuple(cell), lev), len(self.registry))
-            if s >= self.nslots:
-                raise NonIntegral("slot registry capacity exceeded")
-            return s
-        lin = cell[0] + (self.U * cell[1] if self.D == 2 else 0)
-        return lev * self.U ** self.D + lin
+        s = self.registry.setdefault((tuple(cell), int(lev)), len(self.registry))
+        if s >= self.nslots:
+            raise MachineryError(f"slot table of the one-hot world too small ({self.nslots})")
+        return s
 
     def weight(self, f):
         x = f * self.WTOT
@@ -467,7 +492,7 @@ class World:
     """one directory + one system; run() can be invoked repeatedly; every hook event is projected and recorded"""
 
     def __init__(self, geo, workdir, priority=None):
-        self.geo = geo
+        self.geo = geo = geo.fresh()
         self.dir = workdir
         os.makedirs(workdir, exist_ok=True)
         self.kdir = os.path.join(workdir, "klist")
@@ -723,6 +748,12 @@ class World:
         saved_ray = sys.modules.get("ray")
         if parallel:
             fake = FakeRay(ncpu, schedule or fifo_answer, self.emit_env)
+            sys.modules["ray"] = fake
+        elif saved_ray is None:
+            # serial: process() asks get_ray_cpus_count(), which imports ray (seconds, tens of seconds under load) only
+            # to learn that it is not initialised
+            fake = FakeRay(1, fifo_answer, self.emit_env)
+            fake.is_initialized = lambda *a, **kw: False
             sys.modules["ray"] = fake
         err = None
         res = None
